@@ -249,6 +249,8 @@ class LinSolve(Module):
 
     def _prepare(self, dep_tol=1e-5, hermitian=None, symmetric=None, solver=None):
         self.dep_tol = dep_tol
+        self._hermitian_given = hermitian
+        self._solver_given = solver
         self.ishermitian = hermitian
         self.issymmetric = symmetric
         self.solver = solver
@@ -258,6 +260,7 @@ class LinSolve(Module):
         # Do some detections on the matrix type
         self.issparse = matrix_is_sparse(mat)  # Check if it is a sparse matrix
         self.iscomplex = matrix_is_complex(mat)  # Check if it is a complex-valued matrix
+        self.ishermitian = self._hermitian_given  # Anything not given by the user is detected for the current matrix
         if not self.iscomplex and self.issymmetric is not None:
             self.ishermitian = self.issymmetric
         if self.ishermitian is None:
@@ -268,10 +271,14 @@ class LinSolve(Module):
                             "one for the imaginary.")
 
         # Determine the solver we want to use
-        if self.solver is None:
-            self.solver = auto_determine_solver(mat, ishermitian=self.ishermitian)
+        if self._solver_given is None:
+            solver = auto_determine_solver(mat, ishermitian=self.ishermitian)
+            current = self.solver.solver if isinstance(self.solver, LDAWrapper) else self.solver
+            if type(solver) is not type(current) or getattr(solver, 'hermitian', None) != getattr(current, 'hermitian', None):
+                self.solver = solver  # First matrix, or a matrix of another class than the previous one
         if not isinstance(self.solver, LDAWrapper) and self.use_lda_solver:
-            lda_kwargs = dict(hermitian=self.ishermitian, symmetric=self.issymmetric)
+            flag_given = self._hermitian_given is not None or self.issymmetric is not None
+            lda_kwargs = dict(hermitian=self.ishermitian if flag_given else None, symmetric=self.issymmetric)
             if hasattr(self.solver, 'tol'):
                 lda_kwargs['tol'] = self.solver.tol * 5
             self.solver = LDAWrapper(self.solver, **lda_kwargs)
